@@ -8,7 +8,7 @@ Definition getb (o : option bool) : bool := match o with Some b => b | None => f
 Definition the_params : params :=
   mkParams (match Gen_Body.methods_not_expecting_body with Some l => l | None => [] end)
            (getb Gen_Body.chunk_size_is_nbytes) (getb Gen_Body.pool_passes_body_pos)
-           (getb Gen_Body.pool_see_other_clears_body_pos) (getb Gen_Body.manager_keeps_body_pos).
+           (getb Gen_Body.pool_see_other_clears_body_pos) (getb Gen_Body.manager_keeps_body_pos) (getb Gen_Body.see_other_unchunks).
 
 Definition as_chunk (s : sexp) : option chunk :=
   match s with
